@@ -29,14 +29,15 @@ REQUIRED = {"trees_compared": 400, "conditional_includes": 400, "else_branches":
             "active_errors": 15, "inactive_errors": 60, "nested_includes": 200, "repeated_names": 100,
             "whitespace_variants": 400, "independence_checks": 100, "conditional_type_entries": 100, "max_depth": 3,
             "after_moleculetype_cases": 20, "relative_path_readings": 400,
-            "repeated_molecule_includes": 30, "readings_through_a_symbolic_link": 100, "readings_with_absolute_include_paths": 100}
+            "repeated_molecule_includes": 30, "molecule_lists_continued_in_an_included_file": 20, "include_guard_cases": 20, "readings_through_a_symbolic_link": 100, "readings_with_absolute_include_paths": 100}
 TYPES = ["a", "b", "c"]
 MACROS = ["FOO", "BAR", "BAZ"]
 
 
 def plan(tier, seed):
     n = 2000 if tier == "quick" else 20000
-    return [["main", i] for i in range(n)] + [["after_mol", i] for i in range(n // 10)]
+    return [["main", i] for i in range(n)] + [["after_mol", i] for i in range(n // 10)] + \
+        [["mols_inc", i] for i in range(n // 20)] + [["guard", i] for i in range(n // 20)]
 
 
 def setup():
@@ -166,9 +167,13 @@ class Tree:
         return ["%s %s" % (cond, tag), "#error not supported", "#endif"]
 
 
-def build(rng, after_mol=False):
+def build(rng, after_mol=False, guard=False):
     g = Tree(rng)
     top = ["[ defaults ]", "1 %d no 1.0 1.0" % rng.choice([1, 2])]
+    if guard:
+        # the include-guard idiom: the macro is defined inside the conditional it guards, before the include
+        sub = g.make_file(1, ".", kind="types", under_cond=True)
+        top += ["#ifndef GUARD_FF", "#define GUARD_FF", '#include "%s"' % sub, "#endif"]
     # phase A: everything that is not a molecule definition
     for _ in range(rng.randint(2, 5)):
         c = rng.random()
@@ -346,7 +351,9 @@ def read(path):
 def run_case(cid, rng, workdir):
     res = new_result()
     after = cid[0] == "after_mol"
-    g = build(rng, after_mol=after)
+    special = {"after_mol": "conditional-include-after-moleculetype", "mols_inc": "molecules-lines-in-an-included-file",
+               "guard": "define-inside-the-conditional-before-its-include"}.get(cid[0])
+    g = build(rng, after_mol=after, guard=cid[0] == "guard")
     files = dict(g.files)
     files["t.top"] = list(g.top_pre)
     try:
@@ -357,8 +364,15 @@ def run_case(cid, rng, workdir):
     if not names:
         names = ["M0"]
         files["t.top"] += g.unit_mol("M0")
-    mols = [(rng.choice(names), rng.randint(1, 3)) for _ in range(rng.randint(1, 4))]
-    files["t.top"] = files["t.top"] + ["[ system ]", "x", "[ molecules ]"] + ["%s %d" % (n, c) for n, c in mols]
+    mols = [(rng.choice(names), rng.randint(1, 3)) for _ in range(rng.randint(2 if cid[0] == "mols_inc" else 1, 4))]
+    if cid[0] == "mols_inc":
+        # the last lines of the molecule list live in an included file (a shared solvent count)
+        k = rng.randint(1, len(mols) - 1)
+        files["t.top"] = files["t.top"] + ["[ system ]", "x", "[ molecules ]"] + ["%s %d" % (n, c) for n, c in mols[:k]] + \
+            ['#include "molecules.inc"']
+        files["molecules.inc"] = ["[ molecules ]"] + ["%s %d" % (n, c) for n, c in mols[k:]]
+    else:
+        files["t.top"] = files["t.top"] + ["[ system ]", "x", "[ molecules ]"] + ["%s %d" % (n, c) for n, c in mols]
     tree_root = os.path.join(workdir, "tree")
     write_tree(files, tree_root)
     res["sig"] = sig_of(sorted(files.items()))
@@ -371,6 +385,10 @@ def run_case(cid, rng, workdir):
         flat, info, expect_error = None, {}, True
     if after:
         bump(res, "after_moleculetype_cases")
+    if cid[0] == "mols_inc":
+        bump(res, "molecule_lists_continued_in_an_included_file")
+    if cid[0] == "guard":
+        bump(res, "include_guard_cases")
     st_tree, s_tree, _e = read(os.path.join(tree_root, "t.top"))
     if expect_error:
         bump(res, "active_errors")
@@ -405,9 +423,9 @@ def run_case(cid, rng, workdir):
     if len({n for n, _ in mols}) < len(mols):
         bump(res, "repeated_names")
     res["nontrivial"] = (g.stats["cond"] + g.stats["errors"]) >= 1 and len(files) >= 2
-    suffix = ":conditional-include-after-moleculetype" if after else ""
+    suffix = (":" + special) if special else ""
     if st_flat != "ok":
-        if st_tree != "ok" and not after:
+        if st_tree != "ok" and not special:
             # both readings fail the same way: outside the property (e.g. duplicate definitions)
             res["status"] = "rejected"
             note(res, "rejections", s_tree[:100])
@@ -417,7 +435,7 @@ def run_case(cid, rng, workdir):
             res["error"] = "flattened file is rejected (%s) but the tree is read: oracle bug?\n%s" % (s_flat, "\n".join(flat))
             return res
     if st_tree != "ok":
-        violation(res, "conditional-include-after-moleculetype" if after else "tree-rejected-flat-accepted",
+        violation(res, special if special else "tree-rejected-flat-accepted",
                   "the include tree is rejected (%s) but its flattened equivalent is read" % s_tree, w)
         return res
     if s_tree != s_flat:
@@ -425,7 +443,7 @@ def run_case(cid, rng, workdir):
         detail = ""
         for k in diff[:2]:
             detail += " %s: tree=%s flat=%s;" % (k, str(s_tree[k])[:200], str(s_flat[k])[:200])
-        key = "conditional-include-after-moleculetype" if after else "differs-from-flattened:%s" % "+".join(diff)
+        key = special if special else "differs-from-flattened:%s" % "+".join(diff)
         violation(res, key, "reading the tree differs from reading the flattened file in %s:%s" % (diff, detail), w)
         return res
     # files of the same relative names in the directory the program is started from must never be read instead of the
